@@ -14,7 +14,9 @@ from vf.refsem import ArrV, FunV, domain_size, INF, reffv, sorts_of_type
 STRINGS = ["", "a", "b", "ab", "abc", "aba", "ba", "0", "12", "007", "-3", " 12", "1_0", "+5",
            "٣", "a\"b", "x y", "\\", "abcabc", "c", "é", "12a", "9" * 25,
            # what SMT-LIB 2.6 writes with escapes: text that looks like an escape, characters outside 0x20-0x7E
-           "\\u{41}", "a\\u0062", "\n", "\x7f", "\U0001F600", "\\u{", "\\x41"]
+           "\\u{41}", "a\\u0062", "\n", "\x7f", "\U0001F600", "\\u{", "\\x41",
+           # adjacent quotes (each is written "" or \u{22})
+           "a\"\"b", "\"\"", "\"a\""]
 INTS = [0, 1, -1, 2, -2, 3, -3, 4, 5, 7, 8, -8, 16, 33, 100, -100, 2 ** 31, -2 ** 31, 2 ** 53 + 1,
         -(2 ** 63), 10 ** 20 + 1, -(10 ** 20) - 1, 2 ** 80, 3 * 10 ** 17 + 1]
 REALS = [Fraction(0), Fraction(1), Fraction(-1), Fraction(1, 2), Fraction(-1, 2), Fraction(3, 2),
